@@ -146,12 +146,15 @@ def mutate_case(rng, case):
 
 
 CLAIMED = True
-LEVEL_TEXT = ("Theorems (all circuits, all arities, all valuations): every graph with the dual-rail gadget structure (tern_shape) over c "
-              "encodes a Kleene-consistent valuation of c under every consistent binary valuation, and on acyclic c a companion at 0 "
-              "means the node has its binary value under every completion of the X inputs; the gate types of the gadgets are regenerated "
-              "from tx.ternary on every run and proved equal to the documented ones. That the model of tx.ternary always produces the "
-              "gadget structure is stated (C10_model_shape_full) and decided per generated case (shapeb) rather than proved; the model is "
-              "tied to tx.ternary by correspondence incl. recorded set orders; the property itself is decided per case by exhaustive "
+LEVEL_TEXT = ("Theorem C10_ternary (all lint-clean circuits with a closed graph, all gate types and arities, cyclic included, all recorded "
+              "node and fan-in orders, all consistent valuations): whenever the model of tx.ternary returns (R, mapping), R contains c "
+              "unchanged, every node has its companion gadget and every consistent binary valuation of R reads as a Kleene-consistent "
+              "valuation of c (mapping[n]=1 exactly where Kleene evaluation gives X, the Kleene value at n elsewhere); on acyclic c a "
+              "companion at 0 means the node has its value under every completion of the X inputs. Proved through an invariant of the "
+              "sequential construction incl. uid freshness and a string lemma that helper names never equal companion names; the gate "
+              "types of the gadgets are regenerated from tx.ternary on every run and proved equal to the documented ones. Not proved: "
+              "lint_clean R and the exact input set of R (C10_ternary_full) - decided per generated case. The model is tied to "
+              "tx.ternary by correspondence incl. recorded set orders; the property itself is additionally decided per case by exhaustive "
               "certified simulation of all 4^|inputs| patterns in Coq.")
 LEVEL_NOTE = ("Trusted: Coq kernel + vm_compute, std++, translator skeleton for tx.ternary (names/wiring/flags/order compared textually, "
               "fail closed; gate types are a proved table), harness canonicalisation. Not modelled: name checks of Circuit.add and arity "
